@@ -1,5 +1,6 @@
 import QuantemModel.Core.Proto
 import QuantemModel.Model.Registration
+import QuantemModel.Model.RegistrationExt
 open Lean QuantemModel QuantemModel.Proto QuantemModel.Registration
 
 namespace DrvC13
@@ -104,8 +105,8 @@ def opExact (j : Json) : Except String Json := do
   let c := c_t.get
   let gap := topGap (M * N) (fun p => c (p / N) (p % N)) (fun a b => decide (a < b)) (· - ·) 0
   if variant == "np" then
-    let k := coarseNp M N c raw
-    let s := shiftNp1 M N c raw
+    let k := coarseNpG M N c raw
+    let s := shiftNp M N 1 c raw (fun _ _ => (⟨0, 0⟩ : Cx Rat))
     -- degenerate parabola (NumPy would produce nan/inf)
     let den1 := 4 * raw k.x0 k.y0 - 2 * raw (wrap M (k.x0 + 1)) k.y0 - 2 * raw (wrap M ((k.x0 : Int) - 1)) k.y0
     let den2 := 4 * raw k.x0 k.y0 - 2 * raw k.x0 (wrap N (k.y0 + 1)) - 2 * raw k.x0 (wrap N ((k.y0 : Int) - 1))
@@ -169,10 +170,11 @@ def opFull (j : Json) : Except String Json := do
   let mut out : List (String × Json) := [("gap", fl gap), ("scale", fl scale)]
   let mut shift : Float × Float := (0, 0)
   if variant == "np" then
-    let k := coarseNp M N c raw
+    let k := coarseNpG M N c raw
     out := out ++ [("peak", Json.arr #[natJ k.x0, natJ k.y0]), ("x", fl k.x), ("y", fl k.y)]
     if up ≤ 1 then
-      shift := shiftNp1 M N c raw
+      shift := (centre k.x M, centre k.y N)
+      out := out ++ [("raw", Json.arr #[fl k.x, fl k.y])]
     else
       let P := sideNp up
       -- memoised form of `patchNp M N up F k.x k.y`
@@ -183,9 +185,9 @@ def opFull (j : Json) : Except String Json := do
       let p_t := Tab.make P P (fun u v => colStageK N (T u) (Kc_t.get v))
       let p := p_t.get
       let pk := argmax2 P P p
-      let s := upsampledNpOf up k.x k.y p
+      let s := upsampledNpOfG up k.x k.y p
       shift := (centre s.1 M, centre s.2 N)
-      out := out ++ [("ppeak", Json.arr #[natJ pk.1, natJ pk.2]), ("pgap", fl (fgap (P * P) fun q => p (q / P) (q % P))),
+      out := out ++ [("raw", Json.arr #[fl s.1, fl s.2]), ("ppeak", Json.arr #[natJ pk.1, natJ pk.2]), ("pgap", fl (fgap (P * P) fun q => p (q / P) (q % P))),
                      ("pscale", fl (maxAbs (P * P) fun q => p (q / P) (q % P)))]
   else
     let k := coarseTorch M N c
@@ -193,6 +195,7 @@ def opFull (j : Json) : Except String Json := do
                    ("prex", fl ((Num.ofNat k.x0 + k.dx) * 2)), ("prey", fl ((Num.ofNat k.y0 + k.dy) * 2))]
     if up ≤ 2 then
       shift := shiftTorch2 M N c
+      out := out ++ [("raw", Json.arr #[fl k.x, fl k.y])]
     else
       let P := sideTorch up
       let xs := snapTorch up k.x
@@ -208,7 +211,7 @@ def opFull (j : Json) : Except String Json := do
       let pk := argmax2 P P p
       let s := upsampledTorchOf up xs ys p
       shift := (centre s.1 M, centre s.2 N)
-      out := out ++ [("ppeak", Json.arr #[natJ pk.1, natJ pk.2]), ("pgap", fl (fgap (P * P) fun q => p (q / P) (q % P))),
+      out := out ++ [("raw", Json.arr #[fl s.1, fl s.2]), ("center", Json.arr #[fl (centerTorch up xs), fl (centerTorch up ys)]), ("ppeak", Json.arr #[natJ pk.1, natJ pk.2]), ("pgap", fl (fgap (P * P) fun q => p (q / P) (q % P))),
                      ("pscale", fl (maxAbs (P * P) fun q => p (q / P) (q % P)))]
   out := out ++ [("shift", Json.arr #[fl shift.1, fl shift.2])]
   if wantImg then
@@ -263,6 +266,28 @@ def opUpcorr (j : Json) : Except String Json := do
   pure (Json.mkObj [("xy", Json.arr #[fl s.1, fl s.2]), ("ppeak", Json.arr #[natJ pk.1, natJ pk.2]),
     ("pgap", fl (fgap (P * P) fun q => p (q / P) (q % P))), ("pscale", fl (maxAbs (P * P) fun q => p (q / P) (q % P)))])
 
+/-- the entry points of Model/RegistrationExt.lean called as they are (dispatch on the factor inside the
+model; tables are only memoised): `shiftNp`, `shiftTorch`, `alignTorch` -/
+def opEntry (j : Json) : Except String Json := do
+  let up ← natField j "up"
+  let (M, N, ref) ← matOf floatOfJson (← field j "ref")
+  let (M', N', im) ← matOf floatOfJson (← field j "im")
+  if M != M' || N != N' || M == 0 || N == 0 then throw "shape" else
+  let ms ← optField j "max_shift" floatOfJson
+  let raw_t := Tab.make M N (fun s t => cc M N ref im (s : Int) (t : Int))
+  let raw := raw_t.get
+  let c_t := Tab.make M N ((masked M N ms raw))
+  let c := c_t.get
+  let Fr_t := fwdTab M N ref
+  let Fi_t := fwdTab M N im
+  let F_t := Tab.make M N ((ccF Fr_t.get Fi_t.get))
+  let F := F_t.get
+  let sn := shiftNp M N up c raw F
+  let st := shiftTorch M N up raw F
+  let al := alignTorch M N up raw F
+  pure (Json.mkObj [("np", Json.arr #[fl sn.1, fl sn.2]), ("torch", Json.arr #[fl st.1, fl st.2]),
+    ("align", Json.arr #[fl al.1, fl al.2])])
+
 def step (st : Unit) (j : Json) : Unit × Json :=
   match (do
     let op ← strField j "op"
@@ -272,6 +297,7 @@ def step (st : Unit) (j : Json) : Unit × Json :=
     | "full" => opFull j
     | "patch" => opPatch j
     | "upcorr" => opUpcorr j
+    | "entry" => opEntry j
     | _ => throw s!"unknown op {op}" : Except String Json) with
   | .ok r => (st, okJson r)
   | .error e => (st, errJson s!"driver:{e}")
